@@ -525,6 +525,27 @@ func (x *Exec) evalSpecCall(st *State, e *ast.CallExpr) *Value {
 		}
 		k := x.coerce(st, x.eval(st, e.Args[1]), u.Key())
 		return scalarV(boolT, x.mapHas(st, m, u, k))
+	case "mutexheld":
+		// mutexheld(p.mu) / mutexheld(globalMu): the ghost lock state of that mutex
+		if len(e.Args) != 1 {
+			x.fail("spec: mutexheld(MUTEX)")
+			return x.constInt(0)
+		}
+		var ref *Term
+		switch a := unparen(e.Args[0]).(type) {
+		case *ast.Ident:
+			ref = x.b.Var("globaladdr."+a.Name, RefSort)
+		case *ast.SelectorExpr:
+			base := x.eval(st, a.X)
+			if p, ok := base.T.Underlying().(*types.Pointer); ok {
+				ref = x.b.App("fieldaddr."+structName(p.Elem())+"."+a.Sel.Name, RefSort, base.scalar())
+			}
+		}
+		if ref == nil {
+			x.fail("spec: mutexheld: cannot address %s", x.eng.srcText(e.Args[0]))
+			return x.constInt(0)
+		}
+		return scalarV(types.Typ[types.Bool], x.b.Select(x.mutexArr(st), ref))
 	case "madehere":
 		// madehere(v): the local slice variable v currently holds a slice this
 		// function activation allocated itself (make / composite literal)
